@@ -69,7 +69,7 @@ def task(item):
     return out
 
 
-GRAPHS = {'quick': {'UnitSquare': 2, 'PiSquare': 1, 'LShape': 1, 'Circle': 2, 'LShapeDriver': 1, 'UnitSquare2': 1},
+GRAPHS = {'quick': {'UnitSquare': 3, 'PiSquare': 2, 'LShape': 2, 'Circle': 3, 'LShapeDriver': 1, 'UnitSquare2': 1, 'Circle2': 1},
           'thorough': {'UnitSquare': 3, 'PiSquare': 3, 'LShape': 2, 'Circle': 3, 'LShapeDriver': 2, 'UnitSquare2': 2, 'Circle2': 2, 'LShape2': 1}}
 
 
